@@ -35,6 +35,11 @@ def queries(tier, kfs):
                             unwind=max(16, n * (d + 1) + 3), solver='race', timeout=1200 if tier == 'quick' else 7200,
                             bounds=dict(N=n, structure=sid, rerouted_to=rid, node=node, direction='single' if single else 'multi', steps=2,
                                         symbolic='elevation (both steps), area, K, dt, weights, distances')))
+    # node whose receivers include one that may be HIGHER than the node (next to a lake spill): it must not contribute (exact result, C13 harness)
+    qs.append(Query('erode_linear.struct6.node2.m1.0.r1', 'spl.cpp', 'c13_erode.c', dict(FSV_N=3, FSV_D=2, FSV_SINGLE=0),
+                    dict(N=3, D=2, SINGLE=0, STRUCT=6, K_SCALAR=0, ROUNDS=1, ONLY_NODE=2, MEXP='1.0', FSV_POW_SEQ=1), unwind=16, solver='race',
+                    timeout=1200 if tier == 'quick' else 7200,
+                    bounds=dict(N=3, structure=6, node=2, direction='multi', steps=1, symbolic='elevation, area, K, dt, weights, distances')))
     qs.append(Query('reject_nonlinear_on_multi', 'spl.cpp', 'c13_linear.c', dict(FSV_N=3, FSV_D=2, FSV_SINGLE=0), dict(SINGLE=0), unwind=16,
                     bounds=dict(n='every non-NaN binary64', graph='multi')))
     return qs
